@@ -846,6 +846,7 @@ Section QueueProofs.
     o_counts : Forall (fun b => b_nreq b = (pend_of (b_id b) s + run_of (b_id b) s + b_fin b)%nat
                                 /\ b_deliv b = (run_of (b_id b) s + b_fin b)%nat) (s_batches s);
     o_flight : forall p, occ p (q_inflight (s_q s)) = sumf (deliv_at p) (s_batches s);
+    o_prio : Forall (fun t => t_prio t <= u128_max) (q_pending (s_q s));
     o_nocancel : s_cancelled s = 0%nat }.
 
   (* after ScanScheduler::drop *)
@@ -901,7 +902,8 @@ Section QueueProofs.
 
   Lemma step_submit_open s prio sizes s' : Open s -> step pick s (EvSubmit prio sizes) = Some s' -> Open s'.
   Proof.
-    intros HO Hst. cbn [step] in Hst. rewrite (o_notdone s HO) in Hst. inversion Hst; subst s'; clear Hst.
+    intros HO Hst. cbn [step] in Hst. rewrite (o_notdone s HO) in Hst. cbn [orb] in Hst.
+    destruct (u128_max <? prio) eqn:Eprio; [discriminate|]. inversion Hst; subst s'; clear Hst.
     destruct (fold_push prio (s_next s) sizes (s_q s)) as (Hp & Hi & Hby & Hf & Hd). cbn zeta in *.
     destruct (cnt_zero_fresh s HO) as [Hz1 Hz2].
     constructor; cbn [s_q s_running s_batches s_next s_cancelled].
@@ -931,6 +933,8 @@ Section QueueProofs.
         rewrite Hp, cnt_app, cnt_new_tasks, N.eqb_refl, Hz1, Hz2. lia.
     - intro p. rewrite Hf, sumf_app. cbn [sumf fold_right]. unfold deliv_at at 2. cbn [b_prio b_deliv].
       rewrite (o_flight s HO p). destruct (prio =? p); lia.
+    - rewrite Hp. apply Forall_app. split; [apply (o_prio s HO)|].
+      apply Forall_forall. intros t Ht. apply in_map_iff in Ht. destruct Ht as (sz & <- & _). cbn [t_prio]. lia.
     - apply (o_nocancel s HO).
   Qed.
   Lemma next_task_inv q t q' : next_task pick q = Some (t, q') ->
@@ -988,6 +992,8 @@ Section QueueProofs.
       assert (H2 : deliv_at p (h bt) = if t_prio t =? p then S (b_deliv bt) else 0%nat)
         by (unfold deliv_at, h; cbn [b_prio b_deliv]; now rewrite Hbprio).
       rewrite H1, H2 in Hs. rewrite (N.eqb_sym p (t_prio t)). destruct (t_prio t =? p); lia.
+    - pose proof (o_prio s HO) as Hpr. rewrite Forall_forall in *. intros t' Ht'. apply Hpr.
+      eapply Permutation_in; [apply Permutation_sym; exact Hperm | right; exact Ht'].
     - apply (o_nocancel s HO).
   Qed.
 
@@ -1021,6 +1027,7 @@ Section QueueProofs.
       + unfold h. cbn [b_id b_nreq b_deliv b_fin]. unfold of_batch in *. rewrite N.eqb_sym in E. rewrite E in *. lia.
       + unfold of_batch in *. rewrite N.eqb_sym in E. rewrite E in *. lia.
     - intro p. rewrite (o_flight s HO p). symmetry. apply sumf_upd_same. intro b. reflexivity.
+    - apply (o_prio s HO).
     - apply (o_nocancel s HO).
   Qed.
 
@@ -1043,11 +1050,10 @@ Section QueueProofs.
     - intros t Ht. destruct (o_tasks s HO t Ht) as (bt & Hbt & Hid & Hpr).
       exists bt. split; [|split; assumption].
       destruct (in_remove_nth k _ b bt En Hbt) as [-> | H]; [|exact H].
-      exfalso. apply in_app_or in Ht. destruct Ht as [Ht | Ht].
-      + pose proof (cnt_in_pos (of_batch (b_id b)) _ t Ht) as Hpos. unfold pend_of in Hp0. unfold of_batch in Hpos at 1.
-        rewrite Hid, N.eqb_refl in Hpos. specialize (Hpos eq_refl). lia.
-      + pose proof (cnt_in_pos (of_batch (b_id b)) _ t Ht) as Hpos. unfold run_of in Hr0. unfold of_batch in Hpos at 1.
-        rewrite Hid, N.eqb_refl in Hpos. specialize (Hpos eq_refl). lia.
+      exfalso. assert (Hof : of_batch (b_id b) t = true) by (unfold of_batch; rewrite <- Hid; apply N.eqb_refl).
+      apply in_app_or in Ht. destruct Ht as [Ht | Ht].
+      + pose proof (cnt_in_pos _ _ t Ht Hof) as Hpos. unfold pend_of in Hp0. lia.
+      + pose proof (cnt_in_pos _ _ t Ht Hof) as Hpos. unfold run_of in Hr0. lia.
     - rewrite Forall_forall. intros b' Hb'. apply (Hc b'). eapply remove_nth_in; exact Hb'.
     - intro p.
       pose proof (sumf_remove_nth (deliv_at p) k _ b En) as Hs.
@@ -1055,7 +1061,516 @@ Section QueueProofs.
       rewrite <- (o_flight s HO (b_prio b)) in Hle. unfold deliv_at in Hle at 1. rewrite N.eqb_refl in Hle.
       rewrite occ_remove_n by lia. rewrite (o_flight s HO p), Hs.
       unfold deliv_at at 1. rewrite (N.eqb_sym p (b_prio b)). destruct (b_prio b =? p); lia.
+    - apply (o_prio s HO).
     - apply (o_nocancel s HO).
   Qed.
 
+  (* close(): every pending task is cancelled; its when_done runs with an error *)
+  Definition cancel1 (b : batch) (t : task) : batch :=
+    if b_id b =? t_batch t
+    then mk_batch (b_id b) (b_prio b) (b_nreq b) (b_deliv b) (S (b_fin b)) (b_bytes b + t_bytes t) (b_err b || true)
+    else b.
+
+  Lemma fold_finish_map : forall ts bs,
+    fold_left (fun bs t => finish_task true t bs) ts bs = map (fun b => fold_left cancel1 ts b) bs.
+  Proof.
+    induction ts as [|t ts IH]; intro bs; cbn [fold_left]; [now rewrite map_id|].
+    rewrite IH. unfold finish_task, upd_batch. rewrite map_map. apply map_ext. intro b.
+    cbn [fold_left]. f_equal.
+  Qed.
+
+  Lemma fold_cancel1_spec : forall ts b,
+    let b' := fold_left cancel1 ts b in
+    b_id b' = b_id b /\ b_nreq b' = b_nreq b /\ b_fin b' = (b_fin b + cnt (of_batch (b_id b)) ts)%nat
+    /\ ((0 < cnt (of_batch (b_id b)) ts)%nat -> b_err b' = true) /\ (b_err b = true -> b_err b' = true).
+  Proof.
+    induction ts as [|t ts IH]; intro b; cbn [fold_left]; cbn zeta.
+    - cbn. repeat split; auto; lia.
+    - specialize (IH (cancel1 b t)). cbn zeta in IH. destruct IH as (H1 & H2 & H3 & H4 & H5).
+      rewrite cnt_cons. unfold of_batch at 1 3. unfold cancel1 in *.
+      rewrite (N.eqb_sym (t_batch t) (b_id b)).
+      destruct (b_id b =? t_batch t) eqn:E; cbn [b_id b_nreq b_fin b_err] in *.
+      + rewrite H1, H2, H3. repeat split; try lia.
+        * intros _. apply H5. apply orb_true_r.
+        * intros Hb. apply H5. rewrite Hb. reflexivity.
+      + rewrite H1, H2, H3. repeat split; try lia; assumption.
+  Qed.
+
+  Lemma fold_iops_complete {A} : forall (ts : list A) q,
+    let q' := fold_left (fun q _ => on_iop_complete q) ts q in
+    q_iops q' = q_iops q + N.of_nat (length ts) /\ q_pending q' = q_pending q /\ q_done q' = q_done q.
+  Proof.
+    induction ts as [|t ts IH]; intro q; cbn [fold_left length]; cbn zeta; [repeat split; lia|].
+    destruct (IH (on_iop_complete q)) as (H1 & H2 & H3). cbn zeta in *. rewrite H1, H2, H3.
+    cbn [on_iop_complete q_iops q_pending q_done]. repeat split. lia.
+  Qed.
+
+  Lemma step_close_closed s s' : Open s -> step pick s EvClose = Some s' ->
+    Closed s' /\
+    (* C30_close_cancels: nothing stays pending; every batch that had a pending task reports an error *)
+    q_pending (s_q s') = [] /\
+    (forall b', In b' (s_batches s') ->
+       exists b, In b (s_batches s) /\ b_id b' = b_id b /\ b_fin b' = (b_fin b + pend_of (b_id b) s)%nat
+                 /\ ((0 < pend_of (b_id b) s)%nat -> b_err b' = true)).
+  Proof.
+    intros HO Hst. cbn [step] in Hst. rewrite (o_notdone s HO) in Hst. unfold q_close in Hst.
+    inversion Hst; subst s'; clear Hst.
+    set (ts := q_pending (s_q s)).
+    destruct (fold_iops_complete ts (mk_q (q_iops (s_q s)) (q_bytes (s_q s)) [] (q_inflight (s_q s)) true)) as (Hi & Hp & Hd).
+    cbn zeta in *. cbn [q_iops q_pending q_done] in *.
+    assert (Hb' : forall b', In b' (fold_left (fun bs t => finish_task true t bs) ts (s_batches s)) ->
+                  exists b, In b (s_batches s) /\ b' = fold_left cancel1 ts b).
+    { intros b' H. rewrite fold_finish_map in H. apply in_map_iff in H. destruct H as (b & <- & Hb). exists b. split; [exact Hb | reflexivity]. }
+    split; [|split].
+    - constructor; cbn [s_q s_running s_batches s_next s_cancelled].
+      + exact Hd.
+      + exact Hp.
+      + rewrite fold_finish_map, map_map.
+        rewrite (map_ext _ b_id); [apply (o_ids s HO)|]. intro b. apply (fold_cancel1_spec ts b).
+      + intros t Ht. destruct (o_tasks s HO t (in_or_app _ _ _ (or_intror Ht))) as (b & Hb & Hid & _).
+        exists (fold_left cancel1 ts b). split.
+        * rewrite fold_finish_map. apply in_map. exact Hb.
+        * destruct (fold_cancel1_spec ts b) as (H1 & _). cbn zeta in H1. rewrite H1. exact Hid.
+      + pose proof (o_counts s HO) as Hc. rewrite Forall_forall in *. intros b' Hin.
+        destruct (Hb' b' Hin) as (b & Hb & ->). destruct (Hc b Hb) as [Hc1 _].
+        destruct (fold_cancel1_spec ts b) as (H1 & H2 & H3 & _). cbn zeta in *.
+        rewrite H1, H2, H3. unfold run_of, pend_of in *. cbn [s_running]. fold ts in Hc1. lia.
+      + rewrite Hi. pose proof (o_iops s HO). rewrite (o_nocancel s HO). lia.
+    - cbn [s_q]. exact Hp.
+    - intros b' Hin. destruct (Hb' b' Hin) as (b & Hb & ->). exists b.
+      destruct (fold_cancel1_spec ts b) as (H1 & H2 & H3 & H4 & _). cbn zeta in *.
+      unfold pend_of. fold ts. repeat split; assumption.
+  Qed.
+
+  Lemma pick_nil : pick [] = None.
+  Proof.
+    destruct (pick []) as [[t rest]|] eqn:E; [|reflexivity].
+    apply pick_perm in E. apply Permutation_nil in E. discriminate.
+  Qed.
+
+  Lemma step_closed s e s' : Closed s -> step pick s e = Some s' -> Closed s'.
+  Proof.
+    intros HC Hst. destruct e as [prio sizes| |k|k|]; cbn [step] in Hst.
+    - rewrite (c_done s HC) in Hst. cbn [orb] in Hst. discriminate.
+    - unfold next_task in Hst. rewrite (c_pending s HC), pick_nil in Hst. discriminate.
+    - destruct (nth_error (s_running s) k) as [t|] eqn:En; [|discriminate].
+      inversion Hst; subst s'; clear Hst. unfold finish_task.
+      set (h := fun b => mk_batch (b_id b) (b_prio b) (b_nreq b) (b_deliv b) (S (b_fin b)) (b_bytes b + t_bytes t) (b_err b || false)).
+      constructor; cbn [s_q s_running s_batches s_next s_cancelled on_iop_complete q_done q_iops q_pending].
+      + apply (c_done s HC).
+      + apply (c_pending s HC).
+      + rewrite upd_batch_ids; [apply (c_ids s HC) | reflexivity].
+      + intros t' Ht'. destruct (c_tasks s HC t' (remove_nth_in _ _ _ Ht')) as (b & Hb & Hid).
+        exists (if b_id b =? t_batch t then h b else b). split; [apply upd_batch_in'; exact Hb|].
+        destruct (b_id b =? t_batch t); exact Hid.
+      + pose proof (c_counts s HC) as Hc. rewrite Forall_forall in *. intros b' Hb'.
+        apply upd_batch_in in Hb'. destruct Hb' as (b & Hb & ->). specialize (Hc b Hb).
+        unfold run_of in *. cbn [s_running].
+        rewrite (cnt_remove_nth (of_batch (b_id b)) k _ t En) in Hc.
+        destruct (b_id b =? t_batch t) eqn:E; unfold of_batch in *; rewrite N.eqb_sym in E; rewrite E in *;
+          [unfold h; cbn [b_id b_nreq b_fin]|]; lia.
+      + pose proof (c_iops s HC). rewrite (remove_nth_length _ _ _ En) in H. lia.
+    - destruct (nth_error (s_batches s) k) as [b|] eqn:En; [|discriminate].
+      destruct (b_finished b) eqn:Efin; [|discriminate].
+      inversion Hst; subst s'; clear Hst.
+      unfold b_finished in Efin. apply Nat.eqb_eq in Efin.
+      pose proof (nth_error_In _ _ En) as Hb.
+      pose proof (c_counts s HC) as Hc. rewrite Forall_forall in Hc. pose proof (Hc b Hb) as Hc1.
+      constructor; cbn [s_q s_running s_batches s_next s_cancelled on_bytes_consumed q_done q_iops q_pending].
+      + apply (c_done s HC).
+      + apply (c_pending s HC).
+      + rewrite map_remove_nth. apply NoDup_remove_nth. apply (c_ids s HC).
+      + intros t Ht. destruct (c_tasks s HC t Ht) as (bt & Hbt & Hid). exists bt. split; [|exact Hid].
+        destruct (in_remove_nth k _ b bt En Hbt) as [-> | H]; [|exact H].
+        exfalso. assert (Hof : of_batch (b_id b) t = true) by (unfold of_batch; rewrite <- Hid; apply N.eqb_refl).
+        pose proof (cnt_in_pos _ _ t Ht Hof) as Hpos. unfold run_of in Hc1. lia.
+      + rewrite Forall_forall. intros b' Hb'. apply (Hc b'). eapply remove_nth_in; exact Hb'.
+      + apply (c_iops s HC).
+    - rewrite (c_done s HC) in Hst. discriminate.
+  Qed.
+
+  Definition Good (s : sys) : Prop := Open s \/ Closed s.
+
+  Lemma step_good s e s' : Good s -> step pick s e = Some s' -> Good s'.
+  Proof.
+    intros [HO | HC] Hst; [|right; eapply step_closed; eassumption].
+    destruct e as [prio sizes| |k|k|].
+    - left. eapply step_submit_open; eassumption.
+    - left. eapply step_deliver_open; eassumption.
+    - left. eapply step_complete_open; eassumption.
+    - left. eapply step_consume_open; eassumption.
+    - right. eapply step_close_closed; eassumption.
+  Qed.
+
+  Theorem reachable_good buf : forall es s, run pick (sys_new cap buf) es = Some s -> Good s.
+  Proof.
+    assert (H : forall es s0 s, Good s0 -> run pick s0 es = Some s -> Good s).
+    { induction es as [|e es IH]; intros s0 s HG Hrun; cbn [run] in Hrun.
+      - inversion Hrun; subst; exact HG.
+      - destruct (step pick s0 e) as [s1|] eqn:E; [|discriminate]. eapply IH; [eapply step_good; eassumption | exact Hrun]. }
+    intros es s. apply H. left. apply Open_init.
+  Qed.
+
+  Lemma batch_by_id l a b : NoDup (map b_id l) -> In a l -> In b l -> b_id a = b_id b -> a = b.
+  Proof.
+    induction l as [|x l IH]; intros Hnd Ha Hb Hid; [destruct Ha|].
+    cbn [map] in Hnd. inversion Hnd as [|? ? Hnot Hnd']; subst.
+    destruct Ha as [-> | Ha]; destruct Hb as [-> | Hb]; try reflexivity.
+    - exfalso. apply Hnot. rewrite Hid. apply in_map. exact Hb.
+    - exfalso. apply Hnot. rewrite <- Hid. apply in_map. exact Ha.
+    - apply IH; assumption.
+  Qed.
+
+  Definition internal (e : event) : Prop :=
+    match e with EvDeliver | EvComplete _ | EvConsume _ => True | _ => False end.
+
+  (* the priority bypass: with an iop slot free, a task at or below every in-flight priority is
+     admitted whatever the byte budget says; in particular when nothing is in flight *)
+  Lemma bypass q t : 1 <= q_iops q -> t_prio t <= min_in_flight (q_inflight q) -> can_deliver q t = true.
+  Proof.
+    intros H1 H2. unfold can_deliver. destruct (q_iops q =? 0) eqn:E; [lia|].
+    destruct (t_prio t <=? min_in_flight (q_inflight q)) eqn:E2; [reflexivity | lia].
+  Qed.
+
+  Theorem progress_open s : Open s -> s_batches s <> [] ->
+    exists e s', internal e /\ step pick s e = Some s'.
+  Proof.
+    intros HO Hne.
+    destruct (s_running s) as [|t0 run] eqn:Erun.
+    2:{ exists (EvComplete 0). eexists. split; [exact I|]. cbn [step]. rewrite Erun. cbn [nth_error]. reflexivity. }
+    destruct (existsb b_finished (s_batches s)) eqn:Efin.
+    { apply existsb_exists in Efin. destruct Efin as (b & Hb & Hf).
+      destruct (In_nth_error _ _ Hb) as (k & Hk).
+      exists (EvConsume k). eexists. split; [exact I|]. cbn [step]. rewrite Hk, Hf. reflexivity. }
+    assert (Hunf : forall b, In b (s_batches s) -> b_fin b <> b_nreq b).
+    { intros b Hb Heq. assert (existsb b_finished (s_batches s) = true); [|congruence].
+      apply existsb_exists. exists b. split; [exact Hb|]. unfold b_finished. apply Nat.eqb_eq. exact Heq. }
+    pose proof (o_counts s HO) as Hc. rewrite Forall_forall in Hc.
+    assert (Hr0 : forall i, run_of i s = 0%nat) by (intro i; unfold run_of; rewrite Erun; reflexivity).
+    assert (Hpend : forall b, In b (s_batches s) -> (0 < pend_of (b_id b) s)%nat).
+    { intros b Hb. destruct (Hc b Hb) as [H1 _]. specialize (Hunf b Hb). rewrite Hr0 in H1. lia. }
+    destruct (s_batches s) as [|b0 bs] eqn:Ebs; [congruence|].
+    assert (Hpne : q_pending (s_q s) <> []).
+    { intro Hnil. specialize (Hpend b0 (or_introl eq_refl)). unfold pend_of in Hpend. rewrite Hnil in Hpend. cbn in Hpend. lia. }
+    destruct (pick_some _ Hpne) as (h & rest & Hpick).
+    assert (Hio : 1 <= q_iops (s_q s)) by (pose proof (o_iops s HO) as Hi; rewrite Erun in Hi; cbn [length] in Hi; lia).
+    assert (Hcan : can_deliver (s_q s) h = true).
+    { apply bypass; [exact Hio|].
+      destruct (q_inflight (s_q s)) as [|p infl] eqn:Einf.
+      - cbn [min_in_flight]. pose proof (o_prio s HO) as Hpr. rewrite Forall_forall in Hpr. apply Hpr.
+        eapply Permutation_in; [apply Permutation_sym; apply (pick_perm _ _ _ Hpick) | left; reflexivity].
+      - cbn [min_in_flight]. destruct (N.le_gt_cases (t_prio h) p) as [Hle | Hgt]; [exact Hle|]. exfalso.
+        assert (Hocc : (0 < occ p (q_inflight (s_q s)))%nat).
+        { rewrite Einf. unfold occ. rewrite cnt_cons, N.eqb_refl. lia. }
+        rewrite (o_flight s HO p), Ebs in Hocc.
+        destruct (sumf_pos_in _ _ Hocc) as (b & Hb & Hd).
+        unfold deliv_at in Hd. destruct (b_prio b =? p) eqn:Ep; [|lia].
+        rewrite <- Ebs in *. specialize (Hpend b Hb).
+        destruct (cnt_pos_in _ _ Hpend) as (t & Ht & Hof). unfold of_batch in Hof.
+        destruct (o_tasks s HO t (in_or_app _ _ _ (or_introl Ht))) as (b2 & Hb2 & Hid2 & Hpr2).
+        assert (b2 = b) by (apply (batch_by_id (s_batches s)); [apply (o_ids s HO) | assumption | assumption | lia]).
+        subst b2. pose proof (pick_min _ _ _ Hpick t Ht). lia. }
+    exists EvDeliver. eexists. split; [exact I|]. cbn [step]. unfold next_task. rewrite Hpick, Hcan. reflexivity.
+  Qed.
+
+  Theorem progress_closed s : Closed s -> s_batches s <> [] ->
+    exists e s', internal e /\ step pick s e = Some s'.
+  Proof.
+    intros HC Hne.
+    destruct (s_running s) as [|t0 run] eqn:Erun.
+    2:{ exists (EvComplete 0). eexists. split; [exact I|]. cbn [step]. rewrite Erun. cbn [nth_error]. reflexivity. }
+    destruct (s_batches s) as [|b0 bs] eqn:Ebs; [congruence|].
+    pose proof (c_counts s HC) as Hc. rewrite Ebs in Hc. apply Forall_cons_iff in Hc. destruct Hc as [Hc _].
+    unfold run_of in Hc. rewrite Erun in Hc. cbn in Hc.
+    exists (EvConsume 0). eexists. split; [exact I|]. cbn [step]. rewrite Ebs. cbn [nth_error].
+    unfold b_finished. replace (Nat.eqb (b_fin b0) (b_nreq b0)) with true by (symmetry; apply Nat.eqb_eq; lia). reflexivity.
+  Qed.
+
+  (* every internal step strictly decreases this measure: runs without new submissions are finite *)
+  Definition measure (s : sys) : nat :=
+    (2 * length (q_pending (s_q s)) + length (s_running s) + length (s_batches s))%nat.
+
+  Lemma upd_batch_length id h bs : length (upd_batch id h bs) = length bs.
+  Proof. unfold upd_batch. apply map_length. Qed.
+
+  Lemma step_measure s e s' : internal e -> step pick s e = Some s' -> (measure s' < measure s)%nat.
+  Proof.
+    intros Hint Hst. destruct e as [prio sizes| |k|k|]; try destruct Hint; cbn [step] in Hst.
+    - destruct (next_task pick (s_q s)) as [[t q']|] eqn:En; [|discriminate]. inversion Hst; subst s'; clear Hst.
+      destruct (next_task_inv _ _ _ En) as (rest & Hpick & _ & ->).
+      pose proof (Permutation_length (pick_perm _ _ _ Hpick)) as Hl. cbn [length] in Hl.
+      unfold measure. cbn [s_q s_running s_batches q_pending length]. rewrite upd_batch_length. lia.
+    - destruct (nth_error (s_running s) k) as [t|] eqn:En; [|discriminate]. inversion Hst; subst s'; clear Hst.
+      unfold measure, finish_task. cbn [s_q s_running s_batches q_pending on_iop_complete].
+      rewrite upd_batch_length, (remove_nth_length _ _ _ En). lia.
+    - destruct (nth_error (s_batches s) k) as [b|] eqn:En; [|discriminate].
+      destruct (b_finished b); [|discriminate]. inversion Hst; subst s'; clear Hst.
+      unfold measure. cbn [s_q s_running s_batches q_pending on_bytes_consumed].
+      rewrite (remove_nth_length _ _ _ En). lia.
+  Qed.
+
+  Theorem run_bounded : forall es s s', Forall internal es -> run pick s es = Some s' ->
+    (length es + measure s' <= measure s)%nat.
+  Proof.
+    induction es as [|e es IH]; intros s s' Hint Hrun; cbn [run] in Hrun.
+    - inversion Hrun; subst. cbn [length]. lia.
+    - apply Forall_cons_iff in Hint. destruct Hint as [He Hint].
+      destruct (step pick s e) as [s1|] eqn:E; [|discriminate].
+      pose proof (step_measure _ _ _ He E). specialize (IH _ _ Hint Hrun). cbn [length]. lia.
+  Qed.
+
 End QueueProofs.
+
+(* the executable heap used by the correspondence is one admissible tie-breaking *)
+Lemma min_prio_spec : forall l m, min_prio l = Some m ->
+  (forall t, In t l -> m <= t_prio t) /\ exists t, In t l /\ t_prio t = m.
+Proof.
+  induction l as [|x l IH]; intros m H; cbn [min_prio] in H; [discriminate|].
+  destruct (min_prio l) as [m'|] eqn:E.
+  - inversion H; subst m; clear H. destruct (IH m' eq_refl) as [H1 (t & Ht & Hp)]. split.
+    + intros t' [<- | Ht']; [lia | specialize (H1 t' Ht'); lia].
+    + destruct (N.le_gt_cases (t_prio x) m').
+      * exists x. split; [left; reflexivity | lia].
+      * exists t. split; [right; exact Ht | lia].
+  - inversion H; subst m; clear H. destruct l; [|cbn [min_prio] in E; destruct (min_prio l); discriminate].
+    split; [intros t' [<- | []]; lia | exists x; split; [left; reflexivity | reflexivity]].
+Qed.
+
+Lemma take_prio_spec p : forall l, (exists t, In t l /\ t_prio t = p) ->
+  exists t rest, take_prio p l = Some (t, rest) /\ t_prio t = p /\ Permutation l (t :: rest).
+Proof.
+  induction l as [|x l IH]; intros (t & Ht & Hp); [destruct Ht|]. cbn [take_prio].
+  destruct (t_prio x =? p) eqn:E.
+  - exists x, l. repeat split; [lia | apply Permutation_refl].
+  - destruct Ht as [-> | Ht]; [lia|]. destruct (IH (ex_intro _ t (conj Ht Hp))) as (t' & rest & H1 & H2 & H3).
+    rewrite H1. exists t', (x :: rest). repeat split; [exact H2|].
+    eapply Permutation_trans; [apply perm_skip; exact H3 | apply perm_swap].
+Qed.
+
+Lemma pick_leftmost_ok :
+  (forall l, l <> [] -> exists t rest, pick_leftmost l = Some (t, rest)) /\
+  (forall l t rest, pick_leftmost l = Some (t, rest) -> Permutation l (t :: rest)) /\
+  (forall l t rest, pick_leftmost l = Some (t, rest) -> forall t', In t' l -> t_prio t <= t_prio t').
+Proof.
+  assert (H : forall l t rest, pick_leftmost l = Some (t, rest) ->
+              Permutation l (t :: rest) /\ forall t', In t' l -> t_prio t <= t_prio t').
+  { intros l t rest Hp. unfold pick_leftmost in Hp. destruct (min_prio l) as [m|] eqn:E; [|discriminate].
+    destruct (min_prio_spec l m E) as [Hmin Hex].
+    destruct (take_prio_spec m l Hex) as (t' & rest' & H1 & H2 & H3). rewrite H1 in Hp. injection Hp as E1 E2.
+    rewrite <- E1, <- E2. split; [exact H3 | intros t'' Ht''; rewrite H2; apply Hmin; exact Ht'']. }
+  split; [|split].
+  - intros l Hne. unfold pick_leftmost. destruct (min_prio l) as [m|] eqn:E.
+    + destruct (min_prio_spec l m E) as [_ Hex]. destruct (take_prio_spec m l Hex) as (t & rest & H1 & _). eauto.
+    + destruct l as [|x l]; [congruence|]. cbn [min_prio] in E. destruct (min_prio l); discriminate.
+  - intros l t rest Hp. apply (H l t rest Hp).
+  - intros l t rest Hp. apply (H l t rest Hp).
+Qed.
+
+(* ---------------------------------------------------------------------------------------- *)
+(* H. Packaged statements for Props/C30.v                                                    *)
+(* ---------------------------------------------------------------------------------------- *)
+(* what the BinaryHeap guarantees, whatever its internal tie-breaking *)
+Definition heap_spec (pick : list task -> option (task * list task)) : Prop :=
+  (forall l, l <> [] -> exists t rest, pick l = Some (t, rest)) /\
+  (forall l t rest, pick l = Some (t, rest) -> Permutation l (t :: rest)) /\
+  (forall l t rest, pick l = Some (t, rest) -> forall t', In t' l -> t_prio t <= t_prio t').
+
+Definition reachable pick cap buf (s : sys) : Prop := exists es, run pick (sys_new cap buf) es = Some s.
+Definition enabled pick (s : sys) (e : event) : Prop := exists s', step pick s e = Some s'.
+
+Theorem accounting pick cap buf s : heap_spec pick -> 0 < cap -> reachable pick cap buf s ->
+  (q_done (s_q s) = false -> Open cap s) /\ (q_done (s_q s) = true -> Closed cap s).
+Proof.
+  intros (H1 & H2 & H3) Hc (es & Hrun).
+  destruct (reachable_good pick H1 H2 H3 cap Hc buf es s Hrun) as [HO | HC]; split; intro Hd.
+  - exact HO.
+  - rewrite (o_notdone cap s HO) in Hd. discriminate.
+  - rewrite (c_done cap s HC) in Hd. discriminate.
+  - exact HC.
+Qed.
+
+Theorem no_deadlock pick cap buf s : heap_spec pick -> 0 < cap -> reachable pick cap buf s ->
+  s_batches s <> [] -> exists e, internal e /\ enabled pick s e.
+Proof.
+  intros (H1 & H2 & H3) Hc (es & Hrun) Hne.
+  destruct (reachable_good pick H1 H2 H3 cap Hc buf es s Hrun) as [HO | HC].
+  - destruct (progress_open pick H1 H2 H3 cap Hc s HO Hne) as (e & s' & Hi & Hs). exists e. split; [exact Hi | exists s'; exact Hs].
+  - destruct (progress_closed pick cap Hc s HC Hne) as (e & s' & Hi & Hs). exists e. split; [exact Hi | exists s'; exact Hs].
+Qed.
+
+Theorem all_complete pick cap buf s : heap_spec pick -> 0 < cap -> reachable pick cap buf s ->
+  (forall es s', Forall internal es -> run pick s es = Some s' -> (length es <= measure s)%nat) /\
+  (forall es s', Forall internal es -> run pick s es = Some s' ->
+     (forall e, internal e -> ~ enabled pick s' e) -> s_batches s' = []).
+Proof.
+  intros Hh Hc Hreach. pose proof Hh as (H1 & H2 & H3). split.
+  - intros es s' Hint Hrun. pose proof (run_bounded pick H1 H2 H3 cap Hc es s s' Hint Hrun). lia.
+  - intros es s' Hint Hrun Hstuck.
+    destruct (s_batches s') as [|b bs] eqn:E; [reflexivity|]. exfalso.
+    assert (Hreach' : reachable pick cap buf s').
+    { destruct Hreach as (es0 & Hrun0). exists (es0 ++ es).
+      clear - Hrun0 Hrun. revert Hrun0. generalize (sys_new cap buf). induction es0 as [|e es0 IH]; intros s0 H0; cbn [run app] in *.
+      - inversion H0; subst. exact Hrun.
+      - destruct (step pick s0 e); [apply IH; exact H0 | discriminate]. }
+    destruct (no_deadlock pick cap buf s' Hh Hc Hreach') as (e & Hi & He); [rewrite E; discriminate|].
+    apply (Hstuck e Hi He).
+Qed.
+
+Theorem close_cancels pick cap buf s s' : heap_spec pick -> 0 < cap -> reachable pick cap buf s ->
+  step pick s EvClose = Some s' ->
+  q_pending (s_q s') = [] /\
+  (forall b', In b' (s_batches s') ->
+     exists b, In b (s_batches s) /\ b_id b' = b_id b /\ b_fin b' = (b_fin b + pend_of (b_id b) s)%nat
+               /\ ((0 < pend_of (b_id b) s)%nat -> b_err b' = true)).
+Proof.
+  intros Hh Hc Hreach Hst. pose proof Hh as (H1 & H2 & H3).
+  assert (Hd : q_done (s_q s) = false).
+  { cbn [step] in Hst. destruct (q_done (s_q s)); [discriminate | reflexivity]. }
+  destruct (accounting pick cap buf s Hh Hc Hreach) as [HO _].
+  destruct (step_close_closed pick H1 H2 H3 cap Hc s s' (HO Hd) Hst) as (_ & Hp & Hb). split; assumption.
+Qed.
+
+Theorem priority_bypass pick (q : qstate) (t : task) rest :
+  pick (q_pending q) = Some (t, rest) -> 1 <= q_iops q -> t_prio t <= min_in_flight (q_inflight q) ->
+  exists q', next_task pick q = Some (t, q').
+Proof.
+  intros Hp H1 H2. unfold next_task. rewrite Hp. unfold can_deliver.
+  destruct (q_iops q =? 0) eqn:E; [lia|].
+  destruct (t_prio t <=? min_in_flight (q_inflight q)) eqn:E2; [|lia]. eexists; reflexivity.
+Qed.
+
+Lemma heap_spec_leftmost : heap_spec pick_leftmost.
+Proof. exact pick_leftmost_ok. Qed.
+
+(* ---------------------------------------------------------------------------------------- *)
+(* F. LanceEncodingsIo: chunking and reassembly                                              *)
+(* ---------------------------------------------------------------------------------------- *)
+Lemma pieces_concat f : forall k start bpr e, (1 <= k)%nat -> start + N.of_nat (k - 1) * bpr <= e -> e <= blen f ->
+  concat (map (slice f) (pieces k start bpr e)) = slice f (start, e).
+Proof.
+  induction k as [|k IH]; intros start bpr e Hk H He; [lia|].
+  destruct k as [|k'].
+  - cbn [pieces map concat]. apply app_nil_r.
+  - change (pieces (S (S k')) start bpr e) with ((start, start + bpr) :: pieces (S k') (start + bpr) bpr e).
+    replace (N.of_nat (S (S k') - 1)) with (N.of_nat (S k' - 1) + 1) in H by lia.
+    cbn [map concat]. rewrite IH by (try lia; nia). apply slice_app; [lia | nia | exact He].
+Qed.
+
+Lemma pieces_length : forall k start bpr e, length (pieces k start bpr e) = k.
+Proof.
+  induction k as [|k IH]; intros; [reflexivity|]. destruct k as [|k']; [reflexivity|].
+  change (pieces (S (S k')) start bpr e) with ((start, start + bpr) :: pieces (S k') (start + bpr) bpr e).
+  cbn [length]. now rewrite IH.
+Qed.
+
+Lemma chunk_one_spec f chunk r p : snd r <= blen f -> chunk_one chunk r = Ok p ->
+  (1 <= length p)%nat /\ concat (map (slice f) p) = slice f r /\ Forall (fun c => snd c <= snd r) p
+  /\ (length p = 1%nat -> p = [r]).
+Proof.
+  intros Hf Hrun. unfold chunk_one, sub_chk in Hrun.
+  destruct (snd r <? fst r) eqn:E0; [discriminate|]. cbn [bind] in Hrun.
+  destruct (chunk <? snd r - fst r) eqn:E1.
+  - destruct (chunk =? 0) eqn:E2; [discriminate|]. inversion Hrun; subst p; clear Hrun.
+    set (size := snd r - fst r) in *. set (n := div_ceil size chunk).
+    assert (Hn : 1 <= n) by (apply div_ceil_pos; lia).
+    assert (Hmul : n * (size / n) <= size) by (apply N.mul_div_le; lia).
+    assert (Hk : fst r + N.of_nat (N.to_nat n - 1) * (size / n) <= snd r).
+    { replace (N.of_nat (N.to_nat n - 1)) with (n - 1) by lia. unfold size in *. nia. }
+    rewrite pieces_length. repeat split.
+    + lia.
+    + rewrite pieces_concat by (try lia; assumption). destruct r; reflexivity.
+    + apply pieces_ends. exact Hk.
+    + intro H1. rewrite H1. cbn [pieces]. destruct r; reflexivity.
+  - inversion Hrun; subst p. cbn [length map concat]. repeat split; [lia | apply app_nil_r | constructor; [lia | constructor]].
+Qed.
+
+Definition zres (f : bytes) (tagged : list (range * N)) : list (bytes * N) :=
+  map (fun p => (slice f (fst p), snd p)) tagged.
+
+Lemma gather_app i z1 z2 : gather i (z1 ++ z2) = gather i z1 ++ gather i z2.
+Proof. unfold gather. now rewrite filter_app, map_app, concat_app. Qed.
+
+Lemma gather_group f i idx p :
+  gather i (zres f (map (fun c => (c, idx)) p)) = if idx =? i then concat (map (slice f) p) else [].
+Proof.
+  unfold gather, zres. induction p as [|c p IH]; cbn [map filter snd fst]; [destruct (idx =? i); reflexivity|].
+  destruct (idx =? i) eqn:E; cbn [map concat fst]; rewrite IH; reflexivity.
+Qed.
+
+Lemma in_N_seq : forall len start i, In i (N_seq start len) -> start <= i.
+Proof.
+  induction len as [|len IH]; intros start i H; [destruct H|]. cbn [N_seq] in H.
+  destruct H as [<- | H]; [lia | specialize (IH _ _ H); lia].
+Qed.
+
+Lemma chunk_all_spec f chunk : forall rs idx tagged,
+  Forall (fun r => snd r <= blen f) rs -> chunk_all chunk idx rs = Ok tagged ->
+  (length rs <= length tagged)%nat /\
+  (length tagged = length rs -> map fst tagged = rs) /\
+  Forall (fun c => snd c <= blen f) (map fst tagged) /\
+  (forall i, i < idx -> gather i (zres f tagged) = []) /\
+  map (fun i => gather i (zres f tagged)) (N_seq idx (length rs)) = map (slice f) rs.
+Proof.
+  induction rs as [|r rs IH]; intros idx tagged Hf Hrun; cbn [chunk_all] in Hrun.
+  - inversion Hrun; subst tagged. cbn. repeat split; auto.
+  - apply Forall_cons_iff in Hf. destruct Hf as [Hr Hf].
+    destruct (chunk_one chunk r) as [p| |] eqn:Ep; try discriminate. cbn [bind] in Hrun.
+    destruct (chunk_all chunk (idx + 1) rs) as [tl| |] eqn:Etl; try discriminate. cbn [bind] in Hrun.
+    inversion Hrun; subst tagged; clear Hrun.
+    destruct (chunk_one_spec f chunk r p Hr Ep) as (Hp1 & Hp2 & Hp3 & Hp4).
+    destruct (IH (idx + 1) tl Hf Etl) as (H1 & H2 & H3 & H4 & H5).
+    rewrite app_length, map_length. cbn [length].
+    split; [lia|]. split; [|split; [|split]].
+    + intro Hlen. assert (length p = 1%nat) by lia. assert (length tl = length rs) by lia.
+      rewrite map_app, map_map. cbn [fst]. rewrite map_id, (Hp4 H), (H2 H0). reflexivity.
+    + rewrite map_app, map_map. cbn [fst]. rewrite map_id. apply Forall_app. split; [|exact H3].
+      eapply Forall_impl; [|exact Hp3]. cbn beta. intros; lia.
+    + intros i Hi. unfold zres. rewrite map_app. fold (zres f (map (fun c => (c, idx)) p)) (zres f tl).
+      rewrite gather_app, gather_group. destruct (idx =? i) eqn:E; [lia|]. rewrite H4 by lia. reflexivity.
+    + cbn [N_seq map]. unfold zres. rewrite map_app. fold (zres f (map (fun c => (c, idx)) p)) (zres f tl).
+      f_equal.
+      * rewrite gather_app, gather_group, N.eqb_refl, Hp2, H4 by lia. apply app_nil_r.
+      * rewrite <- H5. apply map_ext_in. intros i Hi. apply in_N_seq in Hi.
+        rewrite gather_app, gather_group. destruct (idx =? i) eqn:E; [lia | reflexivity].
+Qed.
+
+Lemma combine_zres f : forall tagged,
+  combine (map (slice f) (map fst tagged)) (map snd tagged) = zres f tagged.
+Proof. induction tagged as [|x l IH]; cbn [map combine zres]; [reflexivity|]. fold (zres f l). now rewrite IH. Qed.
+
+Theorem encodings_io_exact f bs mx chunk rs tagged :
+  in_file f rs = true -> chunk_all chunk 0 rs = Ok tagged -> Dom_C30 bs mx (map fst tagged) = true ->
+  encodings_io_submit f bs mx chunk rs = Ok (map (slice f) rs).
+Proof.
+  intros Hfile Hch Hdom.
+  assert (Hf : Forall (fun r => snd r <= blen f) rs).
+  { unfold in_file in Hfile. rewrite forallb_forall in Hfile. apply Forall_forall. intros x Hx. specialize (Hfile x Hx). lia. }
+  destruct (chunk_all_spec f chunk rs 0 tagged Hf Hch) as (H1 & H2 & H3 & _ & H5).
+  unfold encodings_io_submit. rewrite Hch. cbn [bind].
+  rewrite bytes_exact; [|unfold in_file; apply forallb_forall; rewrite Forall_forall in H3; intros x Hx; specialize (H3 x Hx); lia | exact Hdom].
+  cbn [bind]. f_equal. unfold reassemble. rewrite !map_length.
+  destruct (Nat.eqb (length tagged) (length rs)) eqn:E.
+  - apply Nat.eqb_eq in E. rewrite (H2 E). reflexivity.
+  - rewrite <- H5. rewrite combine_zres. reflexivity.
+Qed.
+
+(* a failing store read turns the whole request into Err; it never yields wrong bytes *)
+Lemma read_all_fail f fail : forall us, read_all f fail us = Ok (with_b f us) \/ read_all f fail us = Err.
+Proof.
+  induction us as [|u us IH]; [left; reflexivity|]. cbn [read_all with_b map]. fold (with_b f us).
+  unfold read_one. destruct (fst u =? snd u) eqn:E.
+  - destruct u as [s e]; cbn [fst snd] in E. assert (s = e) by lia; subst e. rewrite slice_empty.
+    destruct IH as [-> | ->]; [left | right]; reflexivity.
+  - destruct (fail u); destruct IH as [-> | ->]; auto.
+Qed.
+
+Theorem bytes_exact_or_err f fail bs mx rs :
+  in_file f rs = true -> Dom_C30 bs mx rs = true ->
+  submit_request_f f fail bs mx rs = Ok (map (slice f) rs) \/ submit_request_f f fail bs mx rs = Err.
+Proof.
+  intros Hfile Hdom. pose proof (bytes_exact f bs mx rs Hfile Hdom) as Hex.
+  unfold submit_request, submit_request_f in *.
+  destruct (updated_requests bs mx rs) as [us| |]; try discriminate. cbn [bind] in *.
+  change (read_all f (fun _ => false) us) with (read_all f no_fail us) in Hex. rewrite read_all_ok in Hex. cbn [bind] in Hex.
+  destruct (read_all_fail f fail us) as [-> | ->]; cbn [bind]; [left; exact Hex | right; reflexivity].
+Qed.
